@@ -257,7 +257,7 @@ pub fn plan(prop: &str, tier: &str) -> Option<Plan> {
                 }
                 s.push(sweep(prop, "tk", H_GOOD, 200_000, &["cheap"], &[("stride", "8"), ("audit_every", "20000"), ("mix", "1")], "chk", 600.0));
                 for &hk in &HS4 {
-                    s.push(e1(prop, "u32", hk, 0, "look1+mut+ch0+shape", &[], if hk == H_CONST { 600 } else { 2500 }, 1, 0, "chk", 900.0));
+                    s.push(e1(prop, "u32", hk, 0, "look1+mut+ch0+shape", &[], if hk == H_CONST { 500 } else { 800 }, 1, 0, "chk", 900.0));
                 }
                 for &hk in &HS4 {
                     s.push(e1(prop, "u32", hk, 0, "borrow", &[], 300, 1, 0, "chk", 900.0));
@@ -928,6 +928,7 @@ pub fn plan(prop: &str, tier: &str) -> Option<Plan> {
                 }
                 base.push(e1(prop, "u32", H_GOOD, 0, "look1+mut+ch0+shape", &[], 24, 2, 1, "chk", 45.0));
                 base.push(e1(prop, "u32", H_GOOD, 0, "ch3", &[], 40, 1, 0, "chk", 45.0));
+                base.push(e1(prop, "u32", H_GOOD, 0, "iter", &[], 40, 1, 0, "chk", 45.0)); // incl. nth / skip at the integer limits
                 base.push(e1(prop, "tk", H_TAG, 0, full, &[], 33, 1, 1, "chk", 45.0));
                 base.push(e1(prop, "u32", H_GOOD, 0, "mut1+ch0+shape/capall+caphuge+fill", &["c10"], 24, 2, 1, "chk", 45.0));
                 base.push(e1(prop, "u32", H_GOOD, 0, "capall+caphuge", &["c10"], 130, 1, 0, "chk", 45.0));
@@ -940,6 +941,7 @@ pub fn plan(prop: &str, tier: &str) -> Option<Plan> {
                     base.push(e2(prop, "u32", hk, "look1+mut+ch0+shape2", &[], 5, "chk", 1200.0));
                 }
                 base.push(e1(prop, "u32", H_GOOD, 0, "ch3", &[], 130, 1, 0, "chk", 900.0));
+                base.push(e1(prop, "u32", H_GOOD, 0, "mut1+shape/iter", &[], 64, 2, 0, "chk", 900.0));
                 base.push(e1(prop, "tk", H_GOOD, 0, full, &[], 130, 1, 1, "chk", 900.0));
                 base.push(e1(prop, "tk", H_TAG, 0, "look1+mut+ch0+shape", &[], 33, 2, 1, "chk", 1200.0));
                 base.push(e1(prop, "u32", H_GOOD, 0, "mut1+ch0+shape/capall+caphuge+fill", &["c10"], 64, 2, 1, "chk", 1200.0));
